@@ -133,7 +133,11 @@ func (e *Exec) loadStruct(st *State, ref Term, t types.Type) Term {
 	si := e.S.StructInfo(srt)
 	var args []Term
 	for i := 0; i < su.NumFields(); i++ {
-		args = append(args, Select(e.heapGet(st, e.fieldKey(t, su.Field(i))), ref))
+		k := e.fieldKey(t, su.Field(i))
+		if pred := e.P.Memo[k]; pred != nil && e.spec == 0 && e.memoBusy == 0 {
+			e.Ctx.Assume(st.PC, e.memoPred(st, pred, ref))
+		}
+		args = append(args, Select(e.heapGet(st, k), ref))
 	}
 	if su.NumFields() == 0 {
 		args = append(args, Int(0))
